@@ -3,7 +3,7 @@
 SPEC("pane.converters", "UnionConverter.__init__",
      shapes={"types": "seq"}, mutable=["self"],
      ensures=[(lambda self, types, handlers, constructor: slen(self.converters) == slen(types)
-               and forall(range(slen(types)), lambda j: sat(self.converters, j) == mkconv(sat(types, j), handlers)), ["C18", "C11"], "children"),
+               and forall(range(slen(types)), lambda j: sat(self.converters, j) == mkconv(sat(types, j), handlers)), ["C18", "C11", "C07", "C03"], "children"),
               (lambda self, types, handlers, constructor: self.constructor is constructor, ["C11"], "constructor")],
      raises=(lambda self, types, handlers, constructor, exc: exc_is(exc, TypeError) or exc_is(exc, UnsupportedAnnotation), ["C04"]))
 
@@ -74,3 +74,10 @@ SPEC("pane.converters", "EnumConverter.__init__",
               (lambda self, ty, handlers: self.inner_conv == mkconv(self.inner_ty, handlers), ["C18", "C01"], "value-converter"),
               (lambda self, ty, handlers: forall_val(lambda k: implies(mhas(self.val_map, k), attr(mget(self.val_map, k), "value") == k)), ["C01", "C06"], "value-map")],
      raises=(lambda self, ty, handlers, exc: exc_is(exc, TypeError) or exc_is(exc, UnsupportedAnnotation), ["C04"]))
+
+
+SPEC("pane.converters", "PatternConverter.__init__",
+     shapes={"args": "seq"}, mutable=["self"],
+     ensures=[(lambda self, ty, args, handlers: self.ty is ty and (issub(ty, str) or issub(ty, bytes)) and slen(args) == 0, ["C01"], "text-kind"),
+              (lambda self, ty, args, handlers: self.ty_conv == mkconv(ty, handlers), ["C18", "C01"], "value-converter")],
+     raises=(lambda self, ty, args, handlers, exc: exc_is(exc, TypeError) or exc_is(exc, UnsupportedAnnotation), ["C04"]))
